@@ -160,3 +160,16 @@ Qed.
 
 Lemma length_inv_seq : forall n, length (inv_seq n) = n.
 Proof. intros n. unfold inv_seq. rewrite map_length, seq_length. reflexivity. Qed.
+
+Lemma last_in_box : forall lb ub x, in_box lb ub x -> lb <= 0 <= ub -> lb <= last x 0 <= ub.
+Proof.
+  intros lb ub x F Z. unfold in_box in F. induction F as [|c t Hc Ft IH]; simpl; [exact Z |].
+  destruct t; [exact Hc | exact IH].
+Qed.
+
+(* u v >= m M for u, v in [m, M] with m <= 0 <= M *)
+Lemma prod_lower : forall m M u v, m <= 0 <= M -> m <= u <= M -> m <= v <= M -> m * M <= u * v.
+Proof.
+  intros m M u v Z Hu Hv.
+  destruct (Rle_lt_dec 0 u) as [U | U]; destruct (Rle_lt_dec 0 v) as [V | V]; nra.
+Qed.
